@@ -252,6 +252,27 @@ func H_List_Methods() {
 	zv.Reach("done")
 }
 
+// H_Declarations: names declared together (令甲、乙 = …) each hold a list /
+// dictionary of their own: an operation through one name follows the sequence
+// model and leaves the other name's collection as it was.
+func H_Declarations() {
+	x := zv.Float64("x")
+	ops := []string{"以甲（后增：X）", "以甲（前增：X）", "以甲（左移）", "以甲（右移）", "甲#1 = X", "以甲（交换：1、2）"}
+	op := ops[zv.Choose(len(ops))]
+	decl := []string{"令甲、乙 = 【1，2，3】", "令甲、乙 设为 【1，2，3】", "令乙、甲 = 【1，2，3】"}[zv.Choose(3)]
+	res, err, p := run("输入X\n"+decl+"\n"+op+"\n输出 乙", r.ElementMap{"X": value.NewNumber(x)})
+	zv.Assert(p == nil && err == nil, "declaration of two names: runs")
+	arr, ok := res.(*value.Array)
+	zv.Assert(ok && listIs(arr, []float64{1, 2, 3}), "an operation through one of two names declared together leaves the other name's list unchanged")
+	dres, derr, dp := run("输入X\n令甲、乙 = 【子 = 1，丑 = 2】\n以甲（写入：“寅”、X）\n以甲（移除：“子”）\n输出 【乙之数目，乙之所有索引#1】", r.ElementMap{"X": value.NewNumber(x)})
+	zv.Assert(dp == nil && derr == nil, "declaration of two dictionaries: runs")
+	da, ok2 := dres.(*value.Array)
+	zv.Assert(ok2 && da.Length() == 2 && isNum(da.GetValue()[0], 2), "the other name's dictionary keeps its entries")
+	k0, ok3 := da.GetValue()[1].(*value.String)
+	zv.Assert(ok3 && k0.GetValue() == "子", "the other name's dictionary keeps its key order")
+	zv.Reach("done")
+}
+
 // ---------------------------------------------------------------- dictionaries
 
 var keyPool = []string{"甲", "乙", "丙"}
